@@ -13,6 +13,7 @@ for s in $seeds; do
   pid=$(echo $s | cut -d- -f1)
   ids=$pid
   [ "$s" = "C08-c" ] && ids=C06
+  [ "$s" = "C09-d" ] && ids=C01
   git -C $WT checkout -q -- . ; git -C $WT clean -fdq
   if ! git -C $WT apply /verif/seeded/$s/patch.diff 2>/dev/null; then echo "$s: PATCH DOES NOT APPLY"; miss=$((miss+1)); continue; fi
   caught=no
